@@ -23,7 +23,7 @@ CONSTANT DocsFeature
 None == <<>>
 Some(x) == <<x>>
 \* compile-time-form type spellings used as arguments; the phantom ones are aliases of PhantomData
-PhantomSpellings == {"PhantomData<u8>", "Box<PhantomData<()>>"}
+PhantomSpellings == {"PhantomData<u8>", "Box<PhantomData<()>>", "std::sync::Arc<PhantomData<u8>>"}
 CanonTy(t) == IF t \in PhantomSpellings THEN "phantom" ELSE t
 
 Start(b, f, arg) ==
